@@ -15,7 +15,7 @@ PROPS_FILE = "Props/C10.v"
 PROPS_MODULE = "Props.C10"
 RULE = ("seeded generator of tempo scripts (1..6 changes, bpm from dyadic/decimal/awkward families, metronomes 1..8 "
         "changing on measure lines, pairwise on the 1/96 grid) and query multisets (unsorted, duplicates, grid points of "
-        "every denominator, +-eps off grid; cumulative beats also at arbitrary off-grid times; tempo lists also handed over shuffled); 'keeps' cases: the map built by BpmList.to_timing_map / from_bpm_changes_offset from lists in any order, at arbitrary ms positions, with repeated tempos, holds exactly the changes given; a case is non-trivial when it has >=2 tempo changes or >=2 distinct queries; "
+        "every denominator, +-eps off grid; cumulative beats also at arbitrary off-grid times; tempo lists also handed over shuffled); 'snapper_div' cases: Snapper(divisions=...) with custom divisions listed in any order against the table of all fractions of denominator <= max(divisions) built by the harness; 'keeps' cases: the map built by BpmList.to_timing_map / from_bpm_changes_offset from lists in any order, at arbitrary ms positions, with repeated tempos, holds exactly the changes given; a case is non-trivial when it has >=2 tempo changes or >=2 distinct queries; "
         "distinct by hash of the canonical JSON of the input")
 ASSUMPTIONS = [
     "binary64 rounding inside the implementation is not modelled: the exact stream runs the implementation on "
@@ -138,6 +138,17 @@ def generate(rng, tier):
         if x < 0:
             x = -x
         cases.append({"kind": "snapper", "x": F.frac_json(x)})
+    # Snapper with custom divisions, listed in any order: the nearest fraction of denominator <= max(divisions)
+    for i in range(30 if tier == "quick" else 800):
+        divs = rng.choice([[4, 8, 16, 3, 6, 12], [16, 8, 4], [3, 4], [12, 16], [5, 7, 2], [32, 24, 9], [1], [6, 4, 2, 9, 5]])
+        divs = list(divs)
+        if rng.random() < 0.5:
+            rng.shuffle(divs)
+        d = rng.choice([max(divs), max(divs), rng.choice(divs), 96, 7])
+        x = Fr(rng.randint(0, 4 * d), d) + (Fr(rng.choice([-1, 1]), rng.choice([10 ** 3, 10 ** 6, 7919])) if rng.random() < 0.4 else 0)
+        if x < 0:
+            x = -x
+        cases.append({"kind": "snapper_div", "divs": divs, "x": F.frac_json(x)})
     # the timing map holds exactly the tempo changes given: lists in any order, at arbitrary millisecond positions
     # (on no grid), with neighbouring changes that repeat the previous tempo (re-sync points)
     for i in range(40 if tier == "quick" else 1500):
@@ -252,6 +263,9 @@ def execute(case):
             x = F.frac_from_json(case["x"])
             r = Snapper().snap(x)
             return {"v": F.frac_json(Fr(r))}
+        if kind == "snapper_div":
+            r = Snapper(divisions=tuple(case["divs"])).snap(F.frac_from_json(case["x"]))
+            return {"v": F.frac_json(Fr(r))}
         if kind == "keeps":
             from reamber.algorithms.timing.utils.BpmChangeOffset import BpmChangeOffset
             if case["via"] == "bpmlist":
@@ -333,6 +347,10 @@ def emit(case, out):
     kind = case["kind"]
     if kind == "snapper":
         return f"CSnapper {F.q(F.frac_from_json(case['x']))} {F.q(F.frac_from_json(out['v']))}"
+    if kind == "snapper_div":
+        dmax = max(case["divs"])
+        tbl = sorted({Fr(n, d) for d in range(1, dmax + 1) for n in range(0, d)}) + [Fr(1)]
+        return f"CSnapperT {F.lst([F.q(v) for v in tbl])} {F.q(F.frac_from_json(case['x']))} {F.q(F.frac_from_json(out['v']))}"
     if kind == "keeps":
         bl = lambda rows: F.lst([f"(mkBco {F.q(Fr(b))} {F.q(Fr(m))} {F.q(Fr(o))})" for o, b, m in rows])
         return f"CKeeps {bl(case['given'])} {bl(out['v'])}"
@@ -369,6 +387,8 @@ def nontrivial(case, out):
         return F.frac_from_json(case["x"]).denominator > 1
     if case["kind"] == "keeps":
         return len(case["given"]) >= 2
+    if case["kind"] == "snapper_div":
+        return F.frac_from_json(case["x"]).denominator > 1
     return len(case["l"]) >= 2 or len({(q["m"], tuple(q["b"])) for q in case.get("qs", [])}) >= 2
 
 
@@ -376,6 +396,8 @@ def bucket(case, out):
     k = case["kind"] + ("" if case.get("exact", True) else "-rounded")
     if case["kind"] == "keeps":
         return k + f"/changes={len(case['given'])}/{case['via']}"
+    if case["kind"] == "snapper_div":
+        return k + f"/max={max(case['divs'])}/" + ("ascending" if case["divs"] == sorted(case["divs"]) else "unordered")
     if case["kind"] != "snapper":
         k += f"/changes={len(case['l'])}"
         if out.get("v") is None:
@@ -388,13 +410,15 @@ def classify(case, out, kind):
 
 
 def describe(case, out):
+    if case["kind"] == "snapper_div":
+        return f"snapper divisions={case['divs']} x={case['x']} -> {out.get('v')}"
     if case["kind"] == "keeps":
         return f"keeps via={case['via']} given={case['given']} got={out.get('v')}"
     return f"{case['kind']} exact={case.get('exact', True)} changes={len(case.get('l', []))} queries={len(case.get('qs', []))}"
 
 
 def shrink(case):
-    if case["kind"] == "snapper":
+    if case["kind"] in ("snapper", "snapper_div"):
         return
     for i in range(len(case.get("qs", []))):
         c = dict(case); c["qs"] = case["qs"][:i] + case["qs"][i + 1:]
